@@ -19,16 +19,53 @@ var properties = map[string]PropertyDef{
 		Assumes: []string{"bilinearity of bf128.Mul for two symbolic operands is NOT decided (symbolic×symbolic carry-less multiplication is out of the solvers' reach: DESIGN §6 barrier 1)"},
 		Outside: []string{"base OTs (ecbbot, vsot)", "SoftSpoken extension rounds", "RVOLE multiplication", "real PRG/hash"},
 	},
+	"C19": {
+		Batches: []Batch{
+			{Name: "hagrid-framing", Pkg: "pkg/transcripts/hagrid", Harness: "harness/e1/hagrid",
+				Funcs: []string{"H_hagrid_framing", "H_hagrid_layout", "H_hagrid_split"}, Control: []string{"H_hagrid_framing_MUSTFAIL"}},
+			{Name: "hagrid-state", Pkg: "pkg/transcripts/hagrid", Harness: "harness/e1/hagrid",
+				Funcs: []string{"H_hagrid_extract", "H_hagrid_clone", "H_hagrid_determinism"}, Control: []string{"H_hagrid_extract_MUSTFAIL", "H_hagrid_clone_MUSTFAIL"}},
+			{Name: "xmd", Pkg: "pkg/base/curves/impl/rfc9380/expanders", Harness: "harness/e1/xmd",
+				Funcs: []string{"H_xmd_layout_sha256", "H_xmd_layout_sha512", "H_xmd_oversize_dst", "H_xmd_bounds"}, Control: []string{"H_xmd_layout_MUSTFAIL", "H_xmd_output_MUSTFAIL"}},
+		},
+		Bounds:  map[string]any{"hagrid framing": "two single operations from {AppendDomainSeparator, AppendBytes with ≤2 messages, ExtractBytes}, label/tag/message lengths 0..3 (104 shapes × 104, all contents symbolic): a log that is a prefix of the other ⇒ same operation, label, message boundaries and length", "extraction": "output log ends in extractedTag, live log continues with continuedTag, neither is a prefix of the other; outLen=0 refused with the log unchanged; n ∈ {1,2,32,257}", "clone/determinism": "10 operation shapes", "expand_message_xmd": "hashed streams for b0,b1,bi equal the RFC 9380 §5.3.1 layout for msg/DST lengths 0..3, lenInBytes ∈ {32,48,64,96}, SHA-256 and SHA-512; oversize DST at 256; ell>255 panics"},
+		Assumes: []string{"hash functions are modelled as byte logs with uninterpreted (but functional) outputs; collision-freeness is never assumed silently", "the inductive step (one operation) is the solver's; the induction over operation sequences is stated, not mechanised"},
+		Outside: []string{"real cSHAKE/SHA-2 outputs and RFC vectors (pinned tests)", "hash_to_field reduction, SSWU/Elligator maps, cofactor clearing, subgroup membership", "expand_message_xof"},
+	},
+	"C18": {
+		Batches: []Batch{
+			{Name: "hashcom", Pkg: "pkg/commitments/hashcom", Harness: "harness/e1/hashcom",
+				Funcs: []string{"H_hashcom_layout", "H_hashcom_open", "H_hashcom_injective", "H_hashcom_binding", "H_hashcom_extract_key"}, Control: []string{"H_hashcom_layout_MUSTFAIL", "H_hashcom_open_MUSTFAIL", "H_hashcom_binding_wrong_MUSTFAIL"}},
+		},
+		Bounds:  map[string]any{"hash commitments": "message lengths 0..4, 32-byte witness and key, all contents symbolic: Open accepts iff the recomputed digest equals the commitment; the absorbed stream is injective in (message, witness); under the explicit premise 'equal digests ⇒ equal logs' a changed message, witness, key or commitment alone makes Open reject; ExtractCommitmentKey is deterministic"},
+		Assumes: []string{"keyed BLAKE2b modelled as a byte log; collision resistance appears only as a stated premise of the binding obligations"},
+		Outside: []string{"intcom", "real hash behaviour"},
+	},
+	"C10": {
+		Batches: []Batch{
+			{Name: "sessionctx", Pkg: "pkg/mpc/session", Harness: "harness/e1/sessionctx",
+				Funcs: []string{"H_session_pair_seeds", "H_session_subcontext", "H_session_newcontext_rejects", "H_session_subcontext_rejects"}, Control: []string{"H_session_pair_seeds_MUSTFAIL", "H_session_subcontext_MUSTFAIL"}},
+		},
+		Bounds:  map[string]any{"seed framing": "NewContext / SubContext with symbolic distinct 64-bit IDs (4 parties, sub-quorums of ≤3): the cSHAKE stream absorbed for pair (i,j) by i equals the one absorbed by j and differs for distinct pairs; SubContext binds the sorted member list and its size; argument validation"},
+		Assumes: []string{"cSHAKE modelled as a byte log (functional, uninterpreted outputs)"},
+		Outside: []string{"the interactive setup rounds", "real hash outputs"},
+	},
 	"C14": {
 		Batches: []Batch{
+			{Name: "points-w7-a0", Pkg: "pkg/base/curves/impl/points", Harness: "harness/e1/points",
+				Funcs: []string{"H_points_w7_a0"}, Control: []string{"H_points_w7_MUSTFAIL"}},
+			{Name: "points-w7-am3", Pkg: "pkg/base/curves/impl/points", Harness: "harness/e1/points",
+				Funcs: []string{"H_points_w7_am3"}},
+			{Name: "points-setaffine-edwards", Pkg: "pkg/base/curves/impl/points", Harness: "harness/e1/points",
+				Funcs: []string{"H_points_w7_setaffine", "H_points_w7_am3_setaffine", "H_points_e5"}, Control: []string{"H_points_e5_MUSTFAIL"}},
 			{Name: "k256-fp", Pkg: "pkg/base/curves/k256/impl", Harness: "harness/e1/fiat",
 				Funcs: []string{"H_fiat_moduli", "H_fiat_fp_add", "H_fiat_fp_sub", "H_fiat_fp_opp", "H_fiat_fp_misc"}, Control: []string{"H_fiat_fp_add_MUSTFAIL", "H_fiat_fp_misc_MUSTFAIL"}},
 			{Name: "k256-fq", Pkg: "pkg/base/curves/k256/impl", Harness: "harness/e1/fiat",
 				Funcs: []string{"H_fiat_fq_add", "H_fiat_fq_sub", "H_fiat_fq_opp", "H_fiat_fq_misc"}, Control: []string{"H_fiat_fq_sub_MUSTFAIL"}},
 		},
-		Bounds:  map[string]any{"generated field code": "secp256k1 base field and scalar field: Add/Sub/Opp ≡ (a±b) mod p for ALL 256-bit a,b < p (full width); Selectznz/Cmovznz/Nonzero; ToBytes/FromBytes round trip"},
+		Bounds:  map[string]any{"point formulas": "the REAL generic ShortWeierstrassPointImpl (Add, Double, Neg, Sub, Equal, IsZero, ToAffine, SetAffine, SetFromAffineX) instantiated with model curves y²=x³+5 and y²=x³-3x+1 over GF(7) (odd prime order) and TwistedEdwardsPointImpl with -x²+y²=1+2x²y² over GF(5): equal to the affine chord–tangent / Edwards law for ALL projective (extended) representatives of ALL points, identity / equal / opposite operands included", "generated field code": "secp256k1 base field and scalar field: Add/Sub/Opp ≡ (a±b) mod p for ALL 256-bit a,b < p (full width); Selectznz/Cmovznz/Nonzero; ToBytes/FromBytes round trip"},
 		Assumes: []string{"Montgomery-domain values are compared as residues (linear operations commute with the Montgomery factor)"},
-		Outside: []string{"Mul/Square/Inv/Sqrt/SetBytesWide of every generated field (symbolic×symbolic 256-bit multiplication)", "tower fields, pairing", "other curves' generated fields (same generator, not yet harnessed)", "point formulas at real size"},
+		Outside: []string{"Mul/Square/Inv/Sqrt/SetBytesWide of every generated field (symbolic×symbolic 256-bit multiplication)", "tower fields, pairing", "other curves' generated fields (same generator, not yet harnessed)", "point formulas at real field size and over larger model fields (GF(13): queries exceed the time budget)"},
 	},
 	"C17": {
 		Batches: []Batch{
